@@ -36,8 +36,6 @@ EXHAUSTIVE = {'quick': True, 'thorough': True}
 CASE_TIMEOUT = 30
 
 SIG_PANDAS = 'C12|PandasIndexFeaturesMixin.reindex|default-fill-not-dtype-default'
-SIG_OBJ = 'C12|reindex(object-dtype series)|cells-shared-with-original'
-SIG_SPAN = 'C12|reindex(span=self.span)|span-object-shared-with-original'
 SIG_PANDAS_STATUS = 'C12|PandasIndexFeaturesMixin.reindex|status/iterations-keyword-ignored-or-rejected'
 SIG_TUPLE = 'C12|reindex(ndarray old span, tuple label in new span)|broadcast-aliases-a-period-or-KeyError'
 
@@ -99,7 +97,15 @@ def enc_cell(x, objmap=None):
     if isinstance(x, str):
         return ['s', x]
     if objmap is not None:
-        return ['o', objmap.setdefault(id(x), 500 + len(objmap))]
+        # an object held by reference: its identity (for the sharing scan and the model's identity tags) and a fingerprint of its
+        # VALUE (a deep copy carried over by reindex is another object with the same value)
+        try:
+            import hashlib
+            import pickle
+            fp = hashlib.md5(pickle.dumps(x)).hexdigest()[:10]
+        except Exception:
+            fp = type(x).__name__
+        return ['o', objmap.setdefault(id(x), 500 + len(objmap)), fp]
     return ['?', type(x).__name__]
 
 
@@ -212,6 +218,9 @@ def _build(case, span):
         for v in case['vars']:
             if v['dtype'] == 'obj':
                 c.add_variable(v['name'], None)
+                for i, x in enumerate(v['data'][:n]):          # cells holding mutable objects (one list per period)
+                    if x is not None:
+                        c[v['name']][i] = [dec_pv(x)]
             else:
                 c.add_variable(v['name'], [dec_pv(x) for x in v['data'][:n]], dtype=NP_DTYPE[v['dtype']])
         return c
@@ -387,6 +396,10 @@ def impl(case):
             b = r[name]
             if b.dtype != object:
                 b[...] = np.zeros(1, dtype=b.dtype)[0] if b.dtype.kind != 'U' else '#'
+            else:
+                for x in b.tolist():
+                    if isinstance(x, list):
+                        x.append('#mutated#')          # a shared cell object would carry this into the original
         for k in r.__dict__['_attributes']:
             v = r.__dict__.get(k)
             if isinstance(v, list) and k not in ('_attributes', 'index', 'span'):
@@ -475,7 +488,9 @@ def c_parts(case, obs):
             c_names(p.get('ffill_', [])), c_names(p.get('nearest_', [])), lib.clist(srt), lib.clist(act))
     strictarg = 'None' if case.get('strict') is None else '(Some %s)' % lib.cbool(case['strict'])
     return [lc.c_span(case['old']), tbl, ins, vars_, lib.cbool(case.get('obj_strict', False)), kind,
-            lc.c_span(new_spec), fv, strictarg, lib.clist('(%s, %s)' % kv for kv in fills), exp]
+            lc.c_span(new_spec), fv, strictarg, lib.clist('(%s, %s)' % kv for kv in fills), exp,
+            lib.cbool(any(x.startswith('object cells') for x in obs.get('shared', []))),
+            lib.cbool(any(x == 'span' for x in obs.get('shared', [])))]          # (deepcopy of an immutable range / tuple of atoms is the object itself)
 
 
 SHARED = {}          # components `let`-bound once per group: none (measured: for these terms `let` sharing is slower than plain repetition)
@@ -569,6 +584,8 @@ def _expected_fill(dt, pv, given):
 
 
 def _same_cell(a, b):
+    if a[0] == 'o' and b[0] == 'o':
+        return a[2:] == b[2:]          # same value; identity is the business of the sharing scan
     if a[0] == 'f' and b[0] == 'f':
         return str(a[1]) == str(b[1]) or (isinstance(a[1], (int, float)) and isinstance(b[1], (int, float)) and float(a[1]) == float(b[1]))
     return a == b
@@ -673,14 +690,12 @@ def oracle(case, obs):
         bad(site, 'strict-flag', 'strict flag not carried over')
     for s in obs['shared']:
         if s == 'span':
-            if case.get('same_span_object'):
-                fails.append({'sig': SIG_SPAN, 'what': 'result.span is the original\'s span object'})
-            else:
-                bad(site, 'shared-span', 'result.span is the original\'s span object')
+            bad(site, 'shared-span', 'result.span is the original\'s (mutable) span object')
         elif s == 'immutable-span':
             pass
         elif s.startswith('object cells'):
-            fails.append({'sig': SIG_OBJ, 'what': s + ' are the same objects in the original and the result'})
+            # objects of the ORIGINAL's cells found in the result (the fill value, one object for all new cells, is not the original's)
+            bad(site, 'shared-object-cells', s + ' are the same objects in the original and the result')
         else:
             bad(site, 'shared-' + s.split()[0], s + ' is shared between the original and the result')
     if not obs['orig_unchanged_after_mutation']:
@@ -690,7 +705,7 @@ def oracle(case, obs):
 
 def guard(case, obs):
     """Guard classes of the kept findings: the mixin's fills, object cells, the span object itself."""
-    return False          # the model mirrors all three; K stays on everywhere
+    return False          # the model mirrors the kept findings; K stays on everywhere
 
 
 def nontrivial(case, obs):
@@ -885,6 +900,13 @@ def gen(rng, tier):
         for cls in ('VC', 'BM'):
             cases.append({'cls': cls, 'old': old, 'new': {'type': 'list', 'labels': [['f', 2001.0], ['i', 2005], ['f', 2000.0], ['f', 2000.5]]}, 'vars': STD_VARS,
                           'solved': 1, 'fill_value': None, 'fills': [], 'strict': None, 'obj_strict': False})
+    # object-dtype series whose cells hold mutable objects (lists): carried over as copies, never shared
+    for n_old, new_labels in itertools.product((2, 3), ([0, 1, 2, 3], [2, 1], [1, 1, 0], [3], [])):
+        for fv in (None, ['i', 3]):
+            for cls in ('VC',):
+                cases.append({'cls': cls, 'old': fams[0][2](n_old), 'new': {'type': 'list', 'labels': [['i', 2000 + i] for i in new_labels]}, 'fill_value': fv, 'fills': [],
+                              'strict': None, 'obj_strict': False,
+                              'vars': [{'name': 'O', 'dtype': 'obj', 'data': [['i', 7], None, ['s', 'x']]}] + STD_VARS[:1]})
     # linkers: reindex is documented as not implemented (NotImplementedError whatever the arguments)
     for n_old, n_new in ((2, 3), (3, 2), (0, 1)):
         for fv, fl in ((None, []), (['f', 2.5], []), (None, [['status', ['s', 'F']]])):
